@@ -45,3 +45,59 @@ From Coq Require Import Sorted.
 Theorem C17_locs_numeric_order : forall l, KV.Proofs.LocsProofs.int_keys l ->
   Sorted (fun a b => KV.Proofs.LocsProofs.nkey a <= KV.Proofs.LocsProofs.nkey b) (sort_kids l) /\ Permutation (sort_kids l) l.
 Proof. exact KV.Proofs.LocsProofs.sort_kids_numeric. Qed.
+
+(** fan-in iterator (Circuit.fanin): yields every node with a combinational path to an origin and no node without any path --
+    exactly the transitive fan-in in combinational circuits.  [reaches c n o]: a path of lines from n to o;
+    [comb_reaches c n o]: a path on which every node except the end point o is combinational (Model/Reach.v). *)
+From KV Require Import Model.Reach.
+From KV Require Proofs.FaninProofs.
+(* order = restriction of reversed_topological_order; every node at most once *)
+Theorem C17_fanin_order : forall c origins, wf_netlist c ->
+  fanin c origins = filter (fun n => existsb (Nat.eqb n) (fanin c origins)) (rtopo_order c).
+Proof. exact KV.Proofs.FaninProofs.fanin_restricts_rtopo. Qed.
+Theorem C17_fanin_nodup : forall c origins, wf_netlist c -> NoDup (fanin c origins).
+Proof. exact KV.Proofs.FaninProofs.fanin_nodup. Qed.
+(* soundness: no node without a path to an origin *)
+Theorem C17_fanin_sound : forall c origins, wf_netlist c -> forall n,
+  In n (fanin c origins) -> exists o, In o origins /\ reaches c n o.
+Proof. exact KV.Proofs.FaninProofs.fanin_sound. Qed.
+(* completeness: every node with a combinational path to an origin *)
+Theorem C17_fanin_complete_comb : forall c origins, wf_netlist c -> comb_acyclic_rev c -> forall n o,
+  In o origins -> o < length (c_nodes c) -> comb_reaches c n o -> In n (fanin c origins).
+Proof. exact KV.Proofs.FaninProofs.fanin_complete_comb. Qed.
+(* hence: exactly the transitive fan-in when there are no state elements *)
+Theorem C17_fanin_exact_comb : forall c origins, wf_netlist c -> comb_acyclic_rev c ->
+  (forall n, n < length (c_nodes c) -> is_seq (get_node c n) = false) ->
+  (forall o, In o origins -> o < length (c_nodes c)) ->
+  forall n, In n (fanin c origins) <-> exists o, In o origins /\ reaches c n o.
+Proof. exact KV.Proofs.FaninProofs.fanin_exact_comb. Qed.
+(* EXACT characterisation for every netlist: n is yielded iff it is traversed and is an origin, or drives an origin, or drives
+   a node that was traversed earlier and yielded *)
+Theorem C17_fanin_unfold : forall c origins, wf_netlist c -> forall n,
+  In n (fanin c origins) <->
+  In n (rtopo_order c) /\
+  (In n origins \/
+   exists l, In l (somes (n_outs (get_node c n))) /\
+     (In (l_rdr (get_line c l)) origins \/
+      (before (rtopo_order c) (l_rdr (get_line c l)) n /\ In (l_rdr (get_line c l)) (fanin c origins)))).
+Proof. exact KV.Proofs.FaninProofs.fanin_unfold. Qed.
+(* at a combinational node every reader counts ... *)
+Theorem C17_fanin_comb_node : forall c origins, wf_netlist c -> comb_acyclic_rev c -> forall n,
+  n < length (c_nodes c) -> is_seq (get_node c n) = false ->
+  (In n (fanin c origins) <->
+   In n origins \/ exists l, In l (somes (n_outs (get_node c n))) /\ In (l_rdr (get_line c l)) (fanin c origins)).
+Proof. exact KV.Proofs.FaninProofs.fanin_comb_node. Qed.
+(* ... at a flip-flop / latch only readers that are origins, or yielded state elements with a SMALLER node index: a state element
+   that feeds an origin directly is yielded (and then the logic behind it), one that feeds it through a gate is not *)
+Theorem C17_fanin_seq_node : forall c origins, wf_netlist c -> comb_acyclic_rev c -> forall n,
+  n < length (c_nodes c) -> is_seq (get_node c n) = true ->
+  (In n (fanin c origins) <->
+   In n origins \/
+   exists l, In l (somes (n_outs (get_node c n))) /\
+     (In (l_rdr (get_line c l)) origins \/
+      (l_rdr (get_line c l) < n /\ is_seq (get_node c (l_rdr (get_line c l))) = true /\
+       In (l_rdr (get_line c l)) (fanin c origins)))).
+Proof. exact KV.Proofs.FaninProofs.fanin_seq_node. Qed.
+(* executable test of the hypothesis comb_acyclic_rev *)
+Theorem C17_acyclic_rev_b_sound : forall c, wf_netlist c -> KV.Proofs.FaninProofs.acyclic_rev_b c = true -> comb_acyclic_rev c.
+Proof. exact KV.Proofs.FaninProofs.acyclic_rev_b_sound. Qed.
